@@ -115,4 +115,71 @@ def handle (st : St) (ws : List String) : St × String :=
     | none => (st, "bad-utf8")
   | _ => (st, "bad-op")
 
+/-! ### `gx …`: generated extension types (C09)
+
+```
+gx def <id> <name>:<printAs>:<print 0|1>:<clone 0|1>:<zero>,…    (`-` = no extra fields)           -> ok
+gx new <reg> <id> <name> <msg> <src> V:<s>,…      extension factory + plain GError with the same base -> ok
+gx call <dst> <reg> <Method> <site> F:<s> P:<s>,.. S:<frames> E:<elems>
+                                                   same call on both -> <obs ext> | <obs base> | v=<s>,…
+gx err <reg>                                       Error() of both without stack text -> <s> | <s>
+```
+The answers are the SPECIFICATION's: the extension result has the base fields the plain `GError`
+method (`step`, i.e. `wiring`) produces; clone fields copied, the others zero.
+-/
+
+structure XSt where
+  defs : List (Nat × ExtDef) := []
+  regs : List (Nat × (ExtDef × X)) := []
+
+def decField (w : String) : Option FieldDef :=
+  match w.splitOn ":" with
+  | [n, p, pr, cl, z] => do
+    let n ← dec n
+    let p ← dec p
+    let z ← dec z
+    pure { name := n, printAs := p, print := pr == "1", clone := cl == "1", zero := z }
+  | _ => none
+
+def showVals (d : ExtDef) (x : X) : String :=
+  "v=" ++ ",".intercalate (d.map (fun f => enc (x.val f.name)))
+
+def handleX (st : XSt) (ws : List String) : XSt × String :=
+  match ws with
+  | ["def", id, spec] =>
+    match id.toNat?, (if spec == "-" then some [] else (spec.splitOn ",").mapM decField) with
+    | some id, some d => ({ st with defs := (id, d) :: st.defs.filter (fun p => p.1 != id) }, "ok")
+    | _, _ => (st, "bad-op")
+  | ["new", r, id, n, m, s, v] =>
+    match r.toNat?, id.toNat?, dec n, dec m, dec s, (field "V:" v).bind decList with
+    | some r, some id, some n, some m, some s, some vs =>
+      match st.defs.find? (fun p => p.1 == id) with
+      | some (_, d) =>
+        if vs.length != d.length then (st, "bad-op") else
+        let x : X := { base := { name := n, msg := m, src := s, dtag := [], stack := [] },
+                       vals := (d.map (·.name)).zip vs }
+        ({ st with regs := (r, (d, x)) :: st.regs.filter (fun p => p.1 != r) }, "ok")
+      | none => (st, "bad-def")
+    | _, _, _, _, _, _ => (st, "bad-op")
+  | ["call", dst, r, m, _site, f, p, s, _elems] =>
+    match dst.toNat?, r.toNat?, Method.ofGoName m, field "F:" f, field "P:" p, field "S:" s with
+    | some dst, some r, some m, some f, some p, some s =>
+      match st.regs.find? (fun q => q.1 == r), dec f, decList p, decFrames s with
+      | some (_, (d, x)), some f, some p, some (top :: rest) =>
+        let c : Call := { m := m, params := p, formatted := f, frames := ⟨top, rest⟩ }
+        let b := step x.base c
+        let res := toPrimary d x b
+        ({ st with regs := (dst, (d, res)) :: st.regs.filter (fun q => q.1 != dst) },
+          s!"{obs res.base} | {obs b} | {showVals d res}")
+      | none, _, _, _ => (st, "bad-reg")
+      | _, _, _, _ => (st, "bad-op")
+    | _, _, _, _, _, _ => (st, "bad-op")
+  | ["err", r] =>
+    match r.toNat? with
+    | some r => match st.regs.find? (fun q => q.1 == r) with
+      | some (_, (d, x)) => (st, s!"{enc (extError d x)} | {enc (baseError x.base)}")
+      | none => (st, "bad-reg")
+    | none => (st, "bad-op")
+  | _ => (st, "bad-op")
+
 end Drv.GErrClone
